@@ -94,6 +94,26 @@ def run(tier):
             run.counterexample('ts-window:rejects-with-internal-error:%s' % what, '%s raises %r' % (sql, e), {'sql': sql}, True)
             run.ob('rejects:%s' % what, 'counterexample', repr(e))
         run.validated += 1
+    # generated: filters on columns whose names are derived from the allowed ones
+    gen = c15lib.rejected_generated()
+    bad, n = {}, 0
+    for (o, gs), sql, c in gen:
+        n += 1
+        try:
+            PL.plan_sql(sql, **c15lib.rej_catalog(o, gs))
+            bad.setdefault('planned', []).append((sql, c, o, gs))
+        except PlanningException:
+            pass
+        except Exception as e:  # noqa
+            bad.setdefault('raises %s' % type(e).__name__, []).append((sql, c, o, gs))
+    for what, items in sorted(bad.items()):
+        sql, c, o, gs = items[0]
+        run.counterexample('ts-window:other-column-filter-%s' % what.replace(' ', '-'),
+                           'time-series join (order column %s, partition columns %s) with a filter on column %s is %s instead of rejected: %s (%d statements, columns %s)'
+                           % (o, gs, c, what, sql, len(items), sorted({i[1] for i in items})[:8]), {'sql': sql, 'order_by_column': o, 'group_by_columns': gs}, True)
+    run.ob('rejects:filter on another column, generated: %d statements (names derived from the allowed column names x %d condition shapes x 2 catalogs)' % (n, len(c15lib.REJ_SHAPES)),
+           'counterexample' if bad else 'discharged', None)
+    run.validated += n
     run.extra['programs'] = programs
     run.finish()
 
@@ -103,6 +123,19 @@ def replay(path):
     print(json.dumps(r, indent=1))
     from harness import c15lib
     rp = r['replay']
+    if rp.get('order_by_column'):
+        from mindsdb_sql.exceptions import PlanningException
+        from harness import planlib as PL
+        try:
+            PL.plan_sql(rp['sql'], **c15lib.rej_catalog(rp['order_by_column'], rp['group_by_columns']))
+            print('native replay now: reproduced=True (planned instead of rejected)')
+            return 1
+        except PlanningException as e:
+            print('native replay now: reproduced=False PlanningException %s' % str(e)[:100])
+            return 0
+        except Exception as e:  # noqa
+            print('native replay now: reproduced=True raises %r' % e)
+            return 1
     if rp.get('witness'):
         rep, info = c15lib.replay_witness(tuple(rp['member']), rp['witness'])
         print('native replay now: reproduced=%s %s' % (rep, json.dumps(info, default=repr)))
